@@ -157,59 +157,102 @@ def _canon_loops(paths):
     return sorted(out)
 
 
-def encoder_functions(env, rep, rule):
-    """{variant name: function key} from the dispatch of serialize_value on the variant of its argument"""
+def value_adt(prog):
+    for k, a in prog.adts.items():
+        if a["pretty"] == "Amf0Value" and k.startswith("rml_amf0"):
+            return k, a
+    return None, None
+
+
+def expand_calls(env, path, value_fn="serialize_value", depth=0, stack=()):
+    """the alternatives of an encoder path with every call to a local helper that writes to the sink replaced by the helper's
+    own Ok paths (recursively): the grammar of a value type is then the same whether its bytes are written in the dispatch arm,
+    in one function per type or through further helpers.  The recursive call for a nested value stays a token."""
+    prog = env.prog
+    alts = [[]]
+    for t in path:
+        subs = None
+        if t[0] == "call" and not t[1].endswith(value_fn) and depth < 3 and t[1] not in stack:
+            cb = body_by_pretty(prog, t[1])
+            if cb is not None:
+                ex = grammar.emitted(env, cb.key)
+                subs = []
+                for sp in grammar.ok_paths(ex):
+                    inner = [x for x in sp if x[0] not in ("end", "returns", "final", "probe")]
+                    subs.extend(expand_calls(env, inner, value_fn, depth + 1, stack + (t[1],)))
+                if ex.unmodelled:
+                    subs = [[("unmodelled", ex.unmodelled[0][0])]]
+        if subs:
+            alts = [a + s_ for a in alts for s_ in subs][:128]
+        else:
+            alts = [a + [t] for a in alts]
+    return alts
+
+
+def variant_encoders(env, rep, rule):
+    """{variant name: (expanded Ok paths of the encoder for that variant, body to report against, unmodelled writes)}: the
+    dispatch function is replayed once per variant of its argument"""
     prog = env.prog
     sv = body_by_pretty(prog, "serialization::serialize_value")
     if sv is None:
         rep.anchor_missing(rule, "rml_amf0 serialization::serialize_value (variant dispatch of the encoder)")
         return None, None
-    adt = None
-    for k, a in prog.adts.items():
-        if a["pretty"] == "Amf0Value" and k.startswith("rml_amf0"):
-            adt = a
+    ak, adt = value_adt(prog)
     if adt is None:
         rep.anchor_missing(rule, "enum rml_amf0::Amf0Value")
         return None, None
-    ex = grammar.emitted(env, sv.key)
-    table = {}
-    for p in ex.paths:
-        vi = None
-        callee = None
-        for t in p:
-            if t[0] == "when" and t[1].startswith("discr(load(") and t[2].isdigit():
-                vi = int(t[2])
-            if t[0] == "call":
-                callee = t[1]
-        if vi is not None and callee is not None:
-            table[adt["variants"][vi]["name"]] = callee
-    return table, adt
+    rep.fn(sv.key)
+    vparam = None
+    for i in range(1, sv.arg_count + 1):
+        t = sv.locals[i]["t"]
+        if t.get("k") == "ref" and t["to"].get("adt") == ak:
+            vparam = i
+    if vparam is None:
+        rep.anchor_missing(rule, "the Amf0Value parameter of serialize_value")
+        return None, None
+    out = {}
+    for vi, v in enumerate(adt["variants"]):
+        base = env.ctx.entries.get(sv.key)
+        E = base.copy() if base is not None else State()
+        pv = ("ld", (("L", vparam, sv.key), ()), "entry")
+        E.doms[("discr", ("ld", (("P", pv), ()), "entry"))] = Dom(vi, vi)
+        ex = grammar.Extractor(env, sv.key, "w", E, None).run()
+        paths = []
+        span_body = sv
+        for p in grammar.ok_paths(ex):
+            inner = [x for x in p if x[0] not in ("end", "final", "probe")]
+            calls = [t for t in inner if t[0] == "call" and not t[1].endswith("serialize_value")]
+            if len(calls) == 1 and body_by_pretty(prog, calls[0][1]) is not None:
+                span_body = body_by_pretty(prog, calls[0][1])
+                rep.fn(span_body.key)
+            paths.extend(expand_calls(env, inner))
+        unm = [t[1] for p in paths for t in p if t[0] == "unmodelled"] + [u[0] for u in ex.unmodelled]
+        out[v["name"]] = (paths, span_body, unm)
+    return out, adt
 
 
 def check_encoder_grammar(env, rep, rule, spec):
     prog = env.prog
-    table, adt = encoder_functions(env, rep, rule)
+    table, adt = variant_encoders(env, rep, rule)
     if table is None:
         return
     n = 0
     for name, enc in spec["encodings"].items():
         variant = enc["variant"]
-        fnp = table.get(variant)
-        if fnp is None:
-            rep.bad(rule, "encoder:%s" % variant, "the encoder has no dispatch arm for Amf0Value::%s" % variant)
+        paths, b, unm = table.get(variant, ([], None, []))
+        if not paths:
+            rep.bad(rule, "encoder:%s" % variant, "the encoder has no path that writes an Amf0Value::%s" % variant)
             continue
-        b = body_by_pretty(prog, fnp)
-        rep.fn(b.key)
-        ex = grammar.emitted(env, b.key)
-        got = canon_loops({norm_write_path(p) for p in grammar.ok_paths(ex)})
+        got = canon_loops({norm_write_path(p) for p in paths})
         want = canon_loops(enc["alternatives"])
         n += 1
-        if ex.unmodelled:
-            rep.cannot_analyse(rule, "encoder:%s" % variant, "%s writes to the output through %s, which the grammar extractor does not model" % (fnp, ex.unmodelled[0][0]), ex.unmodelled[0][1])
+        fn = b.pretty.split("::")[-1]
+        if unm:
+            rep.cannot_analyse(rule, "encoder:%s" % variant, "%s writes to the output through %s, which the grammar extractor does not model" % (fn, unm[0]), b.span)
             continue
         rep.check(rule, "encoder:%s" % variant, got == want,
-                  "%s emits exactly %s" % (fnp.split("::")[-1], want),
-                  "%s emits %s but the AMF0 specification requires %s for %s" % (fnp.split("::")[-1], got, want, name), b.span,
+                  "%s emits exactly %s" % (fn, want),
+                  "%s emits %s but the AMF0 specification requires %s for %s" % (fn, got, want, name), b.span,
                   detail={"extracted": got, "specified": want})
     # variants of the value type the specification table does not cover
     for v in adt["variants"]:
@@ -262,6 +305,12 @@ def marker_dispatch(env, rep, rule):
             continue
         table.setdefault((marker[1], marker[2]), set()).add(target)
     return table, ex
+
+
+def direct_variant(rendered):
+    """X for a rendered return value  Ok(Some(Amf0Value::X)) / Ok(Amf0Value::X)  of a body-less variant, else None"""
+    m = re.match(r"^Ok\((?:Some\()?Amf0Value::(\w+)\)?\)$", rendered)
+    return m.group(1) if m else None
 
 
 def norm_read_path(path, structure_only=False):
@@ -355,7 +404,11 @@ def check_decoder(env, rep, rule, spec):
             continue
         (kind, target), = got
         if kind != "call":
-            rep.bad(rule, "decoder:marker:%d" % k, "marker %d returns %s directly instead of parsing a %s" % (k, target, row["yields"]))
+            # a value type without a body may be built in the dispatch arm itself: nothing is read, the variant is returned
+            dv = direct_variant(target)
+            rep.check(rule, "decoder:marker:%d" % k, dv == row["yields"] and not row["reads"],
+                      "marker %d -> %s built in place (no body bytes)" % (k, dv),
+                      "marker %d returns %s directly; the specification says it is a %s with body %s" % (k, target, row["yields"], row["reads"]))
             continue
         b = body_by_pretty(prog, target)
         rep.fn(b.key)
